@@ -18,14 +18,32 @@ def graphs_small(n, maxdeg):
 
 
 def build(spec):
-    """spec: list of (name, jt, be, kind) with kind 'basic' | 'branch' | 'tail'."""
+    """spec: list of (name, jt, be, kind) with kind 'basic' | 'branch' | 'tail' | 'region' | 'region2'
+    (a region whose exiting block - for region2 an inner region with its own exiting block -
+    mirrors the region's targets, as extract_region builds them)."""
     from numba_scfg.core.datastructures.scfg import SCFG
     from numba_scfg.core.datastructures.basic_block import (
-        BasicBlock, SyntheticBranch, SyntheticTail, SyntheticHead)
+        BasicBlock, SyntheticBranch, SyntheticTail, SyntheticHead, RegionBlock)
+
+    def region(name, jt, be, depth):
+        h, x = name + "_h", name + "_x"
+        if depth > 1:
+            inner_x = region(x, jt, be, depth - 1)
+        else:
+            inner_x = BasicBlock(name=x, _jump_targets=tuple(jt), backedges=tuple(be))
+        sub = SCFG({h: BasicBlock(name=h, _jump_targets=(x,)), x: inner_x})
+        r = RegionBlock(name=name, _jump_targets=tuple(jt), backedges=tuple(be), kind="branch",
+                        header=h, exiting=x, subregion=sub)
+        object.__setattr__(sub, "region", r)
+        if isinstance(inner_x, RegionBlock):
+            object.__setattr__(inner_x, "parent_region", r)
+        return r
 
     g = {}
     for name, jt, be, kind in spec:
-        if kind == "branch":
+        if kind in ("region", "region2"):
+            g[name] = region(name, jt, be, 2 if kind == "region2" else 1)
+        elif kind == "branch":
             tbl = {i: t for i, t in enumerate(jt)}
             g[name] = SyntheticHead(name=name, _jump_targets=tuple(jt), backedges=tuple(be),
                                     variable="__scfg_control_var_7__", branch_value_table=tbl)
@@ -33,7 +51,32 @@ def build(spec):
             g[name] = SyntheticTail(name=name, _jump_targets=tuple(jt), backedges=tuple(be))
         else:
             g[name] = BasicBlock(name=name, _jump_targets=tuple(jt), backedges=tuple(be))
-    return SCFG(g)
+    sc = SCFG(g)
+    from numba_scfg.core.datastructures.basic_block import RegionBlock as _R
+    for b in g.values():
+        if isinstance(b, _R):
+            object.__setattr__(b, "parent_region", sc.region)
+    return sc
+
+
+def mirror_faults(sc, relevant):
+    """Regions whose exiting block (recursively) was not rerouted like the region block itself: the two
+    must agree on which of the names in `relevant` (the successors S, the new block, the assignment
+    blocks of the call) they jump to - control follows the exiting block, the region block declares."""
+    from numba_scfg.core.datastructures.basic_block import RegionBlock
+
+    bad = []
+
+    def rec(g):
+        for name, b in g.graph.items():
+            if isinstance(b, RegionBlock):
+                x = b.subregion.graph.get(b.exiting)
+                if x is None or (set(x._jump_targets) & relevant) != (set(b._jump_targets) & relevant):
+                    bad.append(name)
+                rec(b.subregion)
+
+    rec(sc)
+    return bad
 
 
 def graph_rows(tag, sc, ids, vids):
@@ -128,7 +171,11 @@ def export_case(case):
         except KeyError as e:
             return None, {"skipped": "unexpected name %r" % (e,)}
     text = "#c14\n" + "\n".join(" ".join(map(str, r)) for r in rows) + "\n0\n"
-    return text, {"status": status, "op": op[0]}
+    mirror = []
+    if status == 0 and op[0] in ("ib", "cb") and op[3]:
+        # (with S empty the new block is appended to the region block only; nothing is rerouted)
+        mirror = mirror_faults(sc, set(op[3]) | {op[1]} | set(r[3] for r in reqs if r[1] == "block"))
+    return text, {"status": status, "op": op[0], "mirror": mirror}
 
 
 def ops_for(keys, rng, full):
@@ -163,14 +210,16 @@ def cases_for(tier, seed):
         kinds = ["basic"] * len(combo)
         for variant in range(2):
             if variant == 1:
-                kinds = [rng.choice(["basic", "branch", "tail"]) if jt else "basic" for jt in combo]
+                kinds = [rng.choice(["basic", "branch", "tail", "region", "region2"]) if jt else "basic" for jt in combo]
                 if all(k == "basic" for k in kinds):
                     continue
             spec = []
             for k, jt, kind in zip(keys, combo, kinds):
                 be = tuple(t for t in dict.fromkeys(jt) if rng.random() < 0.12)
-                if kind == "branch" and len(set(jt)) != len(jt):
-                    kind = "basic"
+                if kind in ("branch", "region", "region2") and len(set(jt)) != len(jt):
+                    kind = "basic"  # a table needs distinct targets; update_exiting renames every occurrence
+                                    # of a target while the primitives rename the first (regions mirror blocks
+                                    # with distinct successors)
                 spec.append((k, tuple(jt), be, kind))
             for op in ops_for(keys, rng, full):
                 cases.append((tuple(spec), op))
